@@ -609,7 +609,7 @@ func (s *Store) flushTick() {
 		// Trigger flush now, non-blocking.
 		select {
 		case s.flushNow <- struct{}{}:
-			log.Debugw("Work ingress rate exceeded flush rate, waiting for flush", "inRate", inRate, "flushRate", s.flushRate, "elapsed", elapsed, "work", work, "burstRate", s.burstRate)
+			log.Debugw("Work ingress rate exceeded flush rate, waiting for flush", "inRate", inRate, "flushRate", flushRate, "elapsed", elapsed, "work", work, "burstRate", s.burstRate)
 		default:
 			// Already signaled, but flush not yet started. No need to wait
 			// since the existing unread signal guarantees the a flush.
